@@ -16,6 +16,8 @@ P3 = "src/geometry/Pose3D.cpp"
 SM = "src/transform/SmartRotation3D.cpp"
 MH = "include/romea_core_common/math/Matrix.hpp"
 EA = "include/romea_core_common/math/EulerAngles.hpp"
+PC = "include/romea_core_common/coordinates/PolarCoordinates.hpp"
+SC = "include/romea_core_common/coordinates/SphericalCoordinates.hpp"
 T3 = "src/geometry/Twist3D.cpp"
 
 # (property, kind, name, [(file, old, new), ...])
@@ -45,6 +47,12 @@ EDITS = [
       (P3, "J * pose3D.covariance * J.transpose();", "J * (pose3D.covariance * J.transpose());"),
       (P3, "  result.position = R * pose3D.position + T;\n  result.orientation = rotation3DToEulerAngles(rotation);\n",
        "  result.orientation = rotation3DToEulerAngles(rotation);\n  result.position = T + R * pose3D.position;\n")]),
+    ("C12", "HARMLESS", "covariance through a 6x6 local: JC = J*C; JC * J^T",
+     [(P3, "  result.covariance = J * pose3D.covariance * J.transpose();",
+       "  const Eigen::Matrix6d JC = J * pose3D.covariance;\n  result.covariance = JC * J.transpose();")]),
+    ("C12", "BREAKING", "covariance through a 6x6 local, transpose dropped",
+     [(P3, "  result.covariance = J * pose3D.covariance * J.transpose();",
+       "  const Eigen::Matrix6d JC = J * pose3D.covariance;\n  result.covariance = JC * J;")]),
     ("C12", "HARMLESS", "renamed locals", [(P3, "Eigen::Matrix6d J = ", "Eigen::Matrix6d jac = "), (P3, "  J.block<3, 3>", "  jac.block<3, 3>"),
                                            (P3, "    J(3, 3 + k)", "    jac(3, 3 + k)"), (P3, "    J(4, 3 + k)", "    jac(4, 3 + k)"),
                                            (P3, "    J(5, 3 + k)", "    jac(5, 3 + k)"),
@@ -66,6 +74,10 @@ EDITS = [
                                                    (EA, "         std::sin(eulerAngle), std::cos(eulerAngle)).finished();",
                                                     "         -std::sin(eulerAngle), std::cos(eulerAngle)).finished();")]),
     ("C10", "BREAKING", "dropped normalized()", [(EA, "quaternion.normalized().toRotationMatrix()", "quaternion.toRotationMatrix()")]),
+    ("C10", "BREAKING", "polar azimut = atan2(x, y)", [(PC, "    return std::atan2(point.y(), point.x());\n  }\n\n  template<typename Scalar>\n  static Scalar azimut(const HomogeneousCoordinates2",
+                                                      "    return std::atan2(point.x(), point.y());\n  }\n\n  template<typename Scalar>\n  static Scalar azimut(const HomogeneousCoordinates2")]),
+    ("C10", "BREAKING", "spherical constructor passes (range, elevation) to the polar base",
+     [(SC, ": PolarCoordinates<Scalar>(range, azimut),", ": PolarCoordinates<Scalar>(range, elevation),")]),
     ("C10", "HARMLESS", "local quaternion + toRotationMatrix(); 2D builder with locals",
      [(EA, "  return Eigen::Matrix<Scalar, 3, 3>(eulerAnglesToQuaternion(eulerAngles));",
        "  const Eigen::Quaternion<Scalar> q = eulerAnglesToQuaternion(eulerAngles);\n  return q.toRotationMatrix();"),
